@@ -18,13 +18,30 @@ def classify(f, src=""):
     if key.startswith("impl-failure:crash:"):
         # a signal has no site.  The listed class is "formatting an aggregate": the crash must disappear
         # when the arguments of every print!/format!/eprint! are replaced by an empty string
-        if ("print!" in src or "format!" in src) and crash_is_formatting(src): key += ":print"
+        import re as _re
+        mods = src.split("//// module ")[1:]
+        names = [set(_re.findall(r"^(?:pub )?(?:struct|word\d+) (\w+)", m, _re.M)) for m in mods]
+        if len(mods) >= 2 and any(names[i] & names[j] for i in range(len(mods)) for j in range(i)) and "Broken module found" in v:
+            key = "impl-failure:llvm-verifier:structure-name-in-two-modules"      # (the listed class D58)
+        elif _re.search(r"^(?:pub )?struct \w+;", src, _re.M) and crash_needs_opaque(src): key = "impl-failure:llvm-verifier:opaque-structure-by-value"   # (D60)
+        elif ("print!" in src or "format!" in src) and crash_is_formatting(src): key += ":print"
         elif __import__("re").search(r"\[[^\]\[]*\]\s*\[\]", src): key += ":array-of-unsized"    # a `[]T` written as the element of an array
         else: key += ":noprint"
     return key
 
 
 _FMT_CACHE = {}
+
+
+def crash_needs_opaque(src):
+    """the crash disappears when every opaque structure declaration `struct S;` is given a body"""
+    import re
+    if ("opq", src) in _FMT_CACHE: return _FMT_CACHE[("opq", src)]
+    filled = re.sub(r"^((?:pub )?struct \w+);", lambda m: m.group(1) + "\n{\n\tpad_: u8,\n}", src, flags=re.M)
+    f = C.run_harness("ir", [("s", filled)], os.path.join(C.CACHE, "work", "C02", "strip"), jobs=1, timeout=120).get("s", ["missing"])
+    res = not f[0].startswith("crash")
+    _FMT_CACHE[("opq", src)] = res
+    return res
 
 
 def crash_is_formatting(src):
@@ -93,6 +110,15 @@ def run(tier):
         if os.path.basename(fpath)[:3] in ("C14", "C15", "C16"): continue      # (witnesses for the second-generation front end)
         if not text.startswith("//cli") and not text.startswith("//wasm"):
             cases.append(("fw:" + os.path.basename(fpath), text, "stored-witnesses"))
+    # private structures of one name in two modules (D58): different and equal bodies, used or not
+    for kc2, (b1, b2) in enumerate([("a: i32,\n\tb: i32,", "x: i64,\n\ty: i64,\n\tz: i64,"), ("a: i32,", "a: i32,"), ("a: i8,", "a: i64,\n\tb: i8,")]):
+        ma = "struct Foo\n{\n\t%s\n}\npub fn geta() -> i32\n{\n\tvar f: Foo;\n\tf.a = 1;\n\treturn: f.a as i32\n}\n" % b1
+        mb = "import \"a.pn\";\nstruct Foo\n{\n\t%s\n}\nfn main() -> i32\n{\n\tvar g: Foo;\n\tvar n: usize = |:Foo|;\n\treturn: geta() + (n as i32)\n}\n" % b2
+        cases.append(("ss%d" % kc2, "//// module a.pn\n%s//// module main.pn\n%s" % (ma, mb), "same-structure-name"))
+    # opaque structures (declared without members) in every place a type can stand (D60)
+    for ko, (decl, use) in enumerate([("", "var s: S;"), ("struct T\n{\n\ts: S,\n\tx: i32,\n}\n", "var t: T;"), ("", "var n: usize = |:S|;"), ("", "var a: [2]S;"),
+                                      ("fn f(s: S) -> i32\n{\n\treturn: 1\n}\n", "var q: i32 = 1;"), ("fn f(s: &S) -> i32\n{\n\treturn: 1\n}\n", "var q: i32 = 1;"), ("const N: usize = |:S|;\n", "var q: usize = N;")]):
+        cases.append(("oq%d" % ko, "struct S;\n%sfn main() -> i32\n{\n\t%s\n\treturn: 0\n}\n" % (decl, use), "opaque-structures"))
     # deep nesting within the stated bound (depth <= 256)
     for d in (32, 128, 256):
         cases.append(("n%da" % d, "fn main() -> i32\n{\n\treturn: " + "(" * d + "1" + ")" * d + "\n}\n", "nesting"))
